@@ -191,7 +191,48 @@ def fam_tiny(rng):
                 obj=([rng.randint(-2, 2)] * d, rng.randint(-1, 1)), mode=rng.choice(["max", "min"]))
 
 
-FAMILIES = [("box", fam_box, 4), ("random", fam_random, 3), ("degenerate", fam_degenerate, 2), ("free", fam_free, 2),
+def _dot(a, v): return sum(x * y for x, y in zip(a, v))
+
+
+def fam_depeq(rng):
+    """equalities through a (often degenerate) vertex, with linearly DEPENDENT ones -- duplicated, scaled, integer combinations --
+    inserted at every position; sign restrictions as `x >= 0' rows (not tableau rows), so that the tableau is made of the equalities
+    and artificial variables of redundant / degenerate rows end the first phase in the base at level zero"""
+    d = rng.randint(2, 3)
+    pt = [rng.choice([0, 0, 1, 2, 3]) for _ in range(d)]
+    k = rng.randint(1, d)
+    base = []
+    for _ in range(k):
+        a = rrow(rng, d, -3, 3, 0.9); base.append((a, -_dot(a, pt)))
+    rows = list(base)
+    for _ in range(rng.randint(1, 3)):
+        r = rng.random()
+        if r < 0.3:
+            a, b = rng.choice(base); new = (list(a), b)
+        elif r < 0.6 or len(base) < 2:
+            a, b = rng.choice(base); m = rng.choice([2, 3, -1, -2]); new = ([m * x for x in a], m * b)
+        else:
+            (a1, b1), (a2, b2) = rng.sample(base, 2); m1 = rng.choice([1, 2, -1]); m2 = rng.choice([1, -1, 2])
+            new = ([m1 * x + m2 * y for x, y in zip(a1, a2)], m1 * b1 + m2 * b2)
+        if not any(new[0]): continue
+        if rng.random() < 0.08: new = (new[0], new[1] + 1)      # inconsistent copy: infeasible
+        rows.insert(rng.randint(0, len(rows)), new)               # every position, the last one included
+    cons = [("=", a, b) for a, b in rows]
+    if rng.random() < 0.3:
+        a = rrow(rng, d, -3, 3); cons.insert(rng.randint(0, len(cons)), (">=", a, -_dot(a, pt) + rng.choice([0, 0, 1, 2])))
+    signs = [(">=", unit(d, i), 0) for i in range(d) if rng.random() < 0.85]
+    r = rng.random()
+    if r < 0.4: cons = signs + cons
+    elif r < 0.8: cons = cons + signs
+    else:
+        cons = cons + signs; rng.shuffle(cons)
+    ints = []
+    if rng.random() < 0.2:
+        cons += box(d, 0, 5); ints = subset(rng, d, rng.choice(["all", "some"]))
+    return dict(dim=d, cons=cons, ints=ints, obj=(rrow(rng, d, -3, 3), rng.randint(-1, 1)), mode=rng.choice(["max", "min"]))
+
+
+FAMILIES = [("depeq", fam_depeq, 3), ("box", fam_box, 4), ("random", fam_random, 3), ("degenerate", fam_degenerate, 2), ("free", fam_free, 2),
             ("equalities", fam_equalities, 2), ("redundant", fam_redundant, 2), ("slab", fam_slab, 1),
             ("unbounded", fam_unbounded, 1), ("deep", fam_deep, 2), ("parallel", fam_parallel, 2), ("tiny", fam_tiny, 1)]
 
@@ -350,4 +391,103 @@ def known_family(seed, n, start=0):
         L += ["obj " + lin(*p["obj"]), "mode max", "solve", "oval", "opoint"]
         lines += ["case " + cid] + L + ["end"]
         meta[cid] = dict(family="known-box", shape="onebyone2", pricing="E")
+    return lines, meta
+
+
+# ------------------------------------------------------------------------------------------------
+# dimensions added AFTER a first resolution, new variables with a sign / boundedness pattern of their own
+
+SIGN_PATTERNS = ["nonneg", "nonneg", "lowneg", "negrange", "upper", "free", "box"]
+
+
+def var_bounds(rng, d, i, pat):
+    if pat == "nonneg":
+        return [(">=", unit(d, i), 0)] + ([(">=", unit(d, i, -1), rng.randint(1, 6))] if rng.random() < 0.6 else [])
+    if pat == "lowneg":
+        return [(">=", unit(d, i), rng.randint(1, 5))] + ([(">=", unit(d, i, -1), rng.randint(0, 5))] if rng.random() < 0.5 else [])
+    if pat == "negrange":
+        lo = rng.randint(2, 6); hi = rng.randint(1, lo)
+        return [(">=", unit(d, i), lo), (">=", unit(d, i, -1), -hi)]       # -lo <= x <= -hi < 0
+    if pat == "upper":
+        return [(">=", unit(d, i, -1), rng.randint(-3, 5))]
+    if pat == "box":
+        return [(">=", unit(d, i), rng.randint(1, 4)), (">=", unit(d, i, -1), rng.randint(1, 4))]
+    return []
+
+
+def dims_after(seed, n, start=0):
+    """solve / is_satisfiable first, THEN add_space_dimensions_and_embed, then constraints on the new variables (whose sign
+    pattern is drawn independently of the old variables'), rows linking old and new variables, a new objective, re-solves"""
+    rng = random.Random(seed)
+    lines, meta = [], {}
+    for k in range(n):
+        pricing = PRICINGS[k % 3]
+        d0 = rng.randint(1, 2)
+        L = ["new %d" % d0]
+        if pricing != "F" or rng.random() < 0.3: L.append("ctl " + pricing)
+        two_sided = set()
+        pats = []
+        for i in range(d0):
+            pat = rng.choice(SIGN_PATTERNS); pats.append(pat)
+            bs = var_bounds(rng, d0, i, pat)
+            if len(bs) == 2: two_sided.add(i)
+            for c in bs: L.append("addc " + con(c))
+        if d0 == 2 and rng.random() < 0.5:
+            L.append("addc " + con((">=", rrow(rng, d0, -2, 2, 1.0), rng.randint(2, 8))))
+        L += ["obj " + lin(rrow(rng, d0, -2, 2), 0), "mode " + rng.choice(["max", "min"])]
+        L.append(rng.choice(["solve", "solve", "issat", "fpoint", "oval"]))
+        cur = d0
+        for rnd in range(rng.choice([1, 1, 2])):
+            m = rng.randint(1, 2) if cur < 3 else 1
+            L.append("dims %d" % m)
+            new = list(range(cur, cur + m)); cur += m
+            cs = []
+            for i in new:
+                pat = rng.choice(SIGN_PATTERNS); pats.append(pat)
+                bs = var_bounds(rng, cur, i, pat)
+                if len(bs) == 2: two_sided.add(i)
+                cs += bs
+            for _ in range(rng.randint(0, 2)):      # rows linking old and new variables
+                a = rrow(rng, cur, -2, 2, 0.8)
+                cs.append((rng.choice([">=", ">=", ">=", "="]), a, rng.randint(0, 10)))
+            if rng.random() < 0.5: rng.shuffle(cs)
+            if rng.random() < 0.4 and len(cs) > 1:
+                L.append("addcs %d %s" % (len(cs), " ".join(con(c) for c in cs)))
+            else:
+                for c in cs:
+                    L.append("addc " + con(c))
+                    if rng.random() < 0.15: L.append(rng.choice(["issat", "fpoint"]))
+            if rng.random() < 0.25 and two_sided:
+                L.append(ints_cmd(sorted(i for i in two_sided if rng.random() < 0.7) or [sorted(two_sided)[0]]))
+            if rng.random() < 0.3: L.append(rng.choice(["issat", "fpoint"]))      # before the objective mentions the new variables
+            o = rrow(rng, cur, -2, 2, 0.9)
+            L += ["obj " + lin(o, rng.randint(-1, 1)), "mode " + rng.choice(["max", "min"]), "solve", "oval", "opoint"]
+            if rng.random() < 0.5:
+                L += ["obj " + lin(rrow(rng, cur, -3, 3), 0), rng.choice(["solve", "oval"])]
+            if rng.random() < 0.4:
+                L += ["mode " + rng.choice(["max", "min"]), rng.choice(["solve", "oval", "opoint"])]
+        cid = "d%d" % (start + k)
+        lines += ["case " + cid] + L + ["end"]
+        meta[cid] = dict(family="dims-after:" + ",".join(pats), shape="dims-after", pricing=pricing)
+    return lines, meta
+
+
+def depeq_cases(seed, n, start=0):
+    """the dependent-equalities family under the shapes that bring a whole batch of rows into one first phase"""
+    rng = random.Random(seed)
+    lines, meta = [], {}
+    for k in range(n):
+        pricing = PRICINGS[k % 3]
+        p = fam_depeq(rng)
+        r = rng.random()
+        if r < 0.4: body = shape_oneshot(rng, p, pricing); sh = "oneshot"
+        elif r < 0.6:
+            body = ["new %d" % p["dim"], "ctl " + pricing] + ([ints_cmd(p["ints"])] if p["ints"] else []) + \
+                   ["addcs %d %s" % (len(p["cons"]), " ".join(con(c) for c in p["cons"])), "obj " + lin(*p["obj"]), "mode " + p["mode"],
+                    rng.choice(["solve", "issat"]), "oval", "opoint"]; sh = "batch"
+        elif r < 0.8: body = shape_onebyone(rng, p, pricing); sh = "onebyone"
+        else: body = shape_resolve(rng, p, pricing); sh = "resolve"
+        cid = "e%d" % (start + k)
+        lines += ["case " + cid] + body + ["end"]
+        meta[cid] = dict(family="depeq", shape=sh, pricing=pricing)
     return lines, meta
